@@ -376,6 +376,9 @@ public:
       const cdg_t &cdg;
       const std::vector<basic_block_label_t> &roots;
       var_dom_t uses;
+      // whether the block of the assume statement is itself control
+      // dependent on the predecessor whose children are roots
+      bool controlled;
 
       // return true if we find a path in cdg from root to target
       // FIXME: do caching for the queries
@@ -412,8 +415,11 @@ public:
     public:
       add_control_deps(const cdg_t &_cdg,
                        const std::vector<basic_block_label_t> &_roots,
+                       const basic_block_label_t &bb,
                        const live_t &l)
-          : cdg(_cdg), roots(_roots), uses(var_dom_t::bottom()) {
+          : cdg(_cdg), roots(_roots), uses(var_dom_t::bottom()),
+            controlled(std::find(_roots.begin(), _roots.end(), bb) !=
+                       _roots.end()) {
         for (auto v : boost::make_iterator_range(l.uses_begin(), l.uses_end())) {
           uses += v;
 	}
@@ -423,7 +429,11 @@ public:
 
       std::pair<var_dom_t, bool> operator()(assert_wrapper_t w, var_dom_t d) {
         bool change = false;
-        if (reach(w.get().get_parent()->label())) {
+        // If the branch decides whether the block of the assume is
+        // executed then it also decides which definitions reach the
+        // assertion: the dependence does not require that the block
+        // of the assertion is control dependent on the branch.
+        if (controlled || reach(w.get().get_parent()->label())) {
           d += uses;
           change = true;
         }
@@ -588,7 +598,7 @@ public:
 		       crab::outs() << c << ";";
 		     }
 		     crab::outs() << "} control-dependent on " << pred << "\n";);
-	    add_control_deps op(m_cdg, children, s.get_live());
+	    add_control_deps op(m_cdg, children, s.get_parent()->label(), s.get_live());
 	    transform_sol_t cf;
 	    m_sol.get_first() = std::move(cf.apply_on_key_and_value(m_sol.get_first(), op));
 	    CRAB_LOG("assertion-crawler-step-control",
